@@ -912,6 +912,29 @@ fn sc_emergency_with_ended_farm(t: &mut Tracer) {
     w.claim(&d, None, &[]);
 }
 
+/// two expired farms of one owner that pay different tokens, closed by a stranger's creation, while a live farm elsewhere holds
+/// more of the first token: each remainder goes back in its own token
+fn sc_autoclose_one_owner_two_tokens(t: &mut Tracer) {
+    let mut w = W::new(SysCfg::default(), 2, t, "autoclose_one_owner_two_tokens");
+    let (lp, lp2) = (w.lps[0].clone(), w.lps[1].clone());
+    let (b, c, d, e) = (w.user(1), w.user(2), w.user(3), w.user(4));
+    let fa = w.fee_funds(&coin(8_000, "uweth"));
+    w.create_farm(&e, &lp, Some(1), Some(3), coin(8_000, "uweth"), Some("a".into()), &fa);
+    let fb = w.fee_funds(&coin(6_000, "uusdt"));
+    w.create_farm(&e, &lp, Some(1), Some(3), coin(6_000, "uusdt"), Some("b".into()), &fb);
+    let fl = w.fee_funds(&coin(40_000, "uweth"));
+    w.create_farm(&c, &lp2, Some(1), Some(41), coin(40_000, "uweth"), Some("live".into()), &fl);
+    w.pos_create(&b, Some("p".into()), DAY, None, &[coin(1000, lp.clone())]);
+    w.pos_create(&b, Some("q".into()), DAY, None, &[coin(1000, lp2.clone())]);
+    w.advance(2 * DAY);
+    w.claim(&b, None, &[]);
+    w.advance(33 * DAY);
+    let fn_ = w.fee_funds(&coin(5_000, "uusd"));
+    w.create_farm(&d, &lp, None, None, coin(5_000, "uusd"), Some("next".into()), &fn_);
+    w.claim(&b, None, &[]);
+    w.close_farm(&c, "m-live", &[]);
+}
+
 /// the emergency flag on positions that are already unlocked: at the expiry second, 12 hours and 11 days later - no penalty
 fn sc_emergency_flag_after_unlock(t: &mut Tracer) {
     let mut w = W::new(SysCfg::default(), 1, t, "emergency_flag_after_unlock");
@@ -1217,6 +1240,7 @@ pub fn run(rng: &mut StdRng, thorough: bool, t: &mut Tracer) {
     sc_alternating_lp_positions(t);
     sc_unlock_range_narrowed(t);
     sc_emergency_flag_after_unlock(t);
+    sc_autoclose_one_owner_two_tokens(t);
     sc_emergency_with_ended_farm(t);
     sc_pool_manager_on_behalf(t);
     sc_instantiate_shapes(t);
